@@ -13,7 +13,7 @@ unsigned g_rmw_count;
 static uint64_t A_FETCH_ADD_u64(uint64_t* x, uint64_t v, int mo) { VERIF_INTERFERE(); A_NOTE(mo); uint64_t old = *x; *x = old + v; g_rmw_count++; return old; }
 
 uint64_t threadId(void)
-__CPROVER_requires(nextThread < KINVALID)      /* fewer than 2^64-1 ids issued so far */
+__CPROVER_requires(nextThread < 18446744073709551615ul)      /* fewer than 2^64-1 ids issued so far (the bound of the property, not the code's marker) */
 __CPROVER_requires(g_rmw_count == 0)
 /* stable: an already assigned id is returned as is, the counter is untouched */
 __CPROVER_ensures(__CPROVER_old(currentThread) != KINVALID ==> (RV == __CPROVER_old(currentThread) && nextThread == __CPROVER_old(nextThread) && g_rmw_count == 0))
